@@ -103,7 +103,12 @@ func (p *parser) endsInANumber(u *Url, input string) bool {
 		parts = parts[0 : len(parts)-1]
 	}
 	last := parts[len(parts)-1]
-	if last != "" && containsOnly(last, ASCIIDigit) {
+	if last == "" {
+		// An empty label is not a number. Do not hand it to the number parser, which would
+		// record an IPv4EmptyPart failure for a host that is accepted as a domain.
+		return false
+	}
+	if containsOnly(last, ASCIIDigit) {
 		return true
 	}
 	if _, _, err := p.parseIPv4Number(u, last); err == nil || goerrors.Is(err, strconv.ErrRange) {
